@@ -414,8 +414,14 @@ impl Property for C16Prop {
             let mut cancelled_by_doc = false;
             let mut doc_cancel_time: Option<(u64, u64)> = None;
             let mut replaced_by_same_id = false;
+            // the first <cancel> with this send's id executed after it, whether or not the id was reused in between:
+            // a cancel is meant for every pending send with that id
+            let mut any_cancel_time: Option<(u64, u64)> = None;
             if let Some(id) = sendid {
                 for (cpos, cid) in &cancels {
+                    if cpos > pos && cid == id && any_cancel_time.is_none() {
+                        any_cancel_time = cancel_upper(*cpos);
+                    }
                     if cpos > pos && (cid == id || (id.starts_with("<generated:") && cid.starts_with("<generated:") && cid == id)) {
                         // only if no later send with the same id lies between
                         let reuse_between = expected_sends.iter().any(|(_, _, s2, _, p2)| p2 > pos && p2 < cpos && s2.as_ref() == Some(id));
@@ -491,6 +497,18 @@ impl Property for C16Prop {
                     let fired_after_cancel = fire_seq.map(|f| f > cseq).unwrap_or(false);
                     if ctime < it.due && fired_after_cancel && !it.deliveries.is_empty() {
                         vio.push(viol("C16", "C16.cancel-ignored", format!("'{}' (id {:?}) was cancelled before {} ms, i.e. before its due time {} ms, and was delivered anyway", ev, sendid, ctime, it.due), "cancel-ignored".into()));
+                    }
+                }
+            }
+            // ... also for a send whose id was reused by a later send before the cancel: the cancel names the id,
+            // it is meant for both
+            if refinement.is_none() && replaced_by_same_id {
+                if let Some((cseq, ctime)) = any_cancel_time {
+                    verdict.evaluations += 1;
+                    let fire_seq = v.log.iter().find(|r| matches!(&r.kind, RecKind::TimerFire { item } if *item == it.item)).map(|r| r.seq);
+                    let fired_after_cancel = fire_seq.map(|f| f > cseq).unwrap_or(false);
+                    if ctime < it.due && fired_after_cancel && !it.deliveries.is_empty() {
+                        vio.push(viol("C16", "C16.cancel-ignored", format!("'{}' (id {:?}, an id a later send reused) was delivered although a <cancel> for its id was executed before {} ms, i.e. before its due time {} ms", ev, sendid, ctime, it.due), "cancel-ignored:id-reused-by-later-send".into()));
                     }
                 }
             }
